@@ -1720,6 +1720,14 @@ def m_iter_last(it, args, fr, callee):
     return none() if last is None else some(last)
 
 
+@tmodel('Vec', 'Extend', 'extend')
+def m_vec_extend(it, args, fr, callee):
+    v = deref_vec(args[0])
+    src = _iter_arg(it, args[1], fr)
+    v.buf.extend(list(src.gen))
+    return UNIT
+
+
 @tmodel('*', 'Iterator', 'collect')
 def m_iter_collect(it, args, fr, callee):
     src = _iter_arg(it, args[0], fr)
@@ -2796,6 +2804,14 @@ def m_str_starts_with(it, args, fr, callee):
     if type(s) is StrV and type(p) is StrV:
         return Sc('bool', int(s.s.startswith(p.s)))
     raise Unsupported('str::starts_with on %r' % (s,))
+
+
+@model('std::string::String::as_str', 'String::as_str', 'alloc::string::String::as_str')
+def m_string_as_str(it, args, fr, callee):
+    s = _deref_all(args[0])
+    if type(s) is StrV:
+        return s
+    raise Unsupported('String::as_str on %r' % (s,))
 
 
 @model('core::str::strip_prefix', 'str::strip_prefix')
